@@ -328,6 +328,31 @@ def run(ctx, chk):
         chk.ok('C19.6', 'called-at-load', sample={'callers': cc})
     else:
         chk.fail('C19.6', 'called-at-load', 'create_cart_state is called from %s' % cc, 'src/mem.rs', None)
+    # the refusal comes before the mapping exists: the ROM is an mmap region wrapped in a Box<[u8]>; a panic raised while
+    # that box is a live local unwinds through its drop glue and hands the mapping to free() - a fault, not a refusal
+    WRF = 'mem::MemoryAreas::with_rom_file'
+    late, nmap = None, 0
+    for cf in sorted(families(prog, [WRF])):
+        if cf not in prog.fns:
+            continue
+        sites = list(prog.call_sites(cf))
+        for bb, t, names in sites:
+            if not any(n.endswith('get_rom_buffer') or n.endswith('map_rom_file') for n in names):
+                continue
+            nmap += 1
+            nxt = t.get('target', -1)
+            if nxt is None or nxt < 0:
+                continue
+            after = prog.reachable_blocks(cf, nxt)
+            for bb2, t2, names2 in sites:
+                if bb2 in after and 'cart::Header::create_cart_state' in names2:
+                    late = late or ('%s calls create_cart_state (which panics for unsupported controller types) after the ROM '
+                                    'file has been mapped (bb%d after bb%d): unwinding drops the Box built over the mapping' % (cf, bb2, bb))
+    if late or not nmap:
+        chk.fail('C19.6', 'before-mapping', late or 'no call of get_rom_buffer / map_rom_file found in with_rom_file (anchor lost)',
+                 'src/mem.rs', None)
+    else:
+        chk.ok('C19.6', 'before-mapping', sample={'mapping calls': nmap, 'rule': 'create_cart_state is not reachable after the mapping call'})
     # ---- rule 9: the ROM / RAM buffers are built with exactly the sizes the header tables give
     chk.rule('C19.9', 'D', 'MemoryAreas::with_rom_file sizes the ROM and cartridge RAM buffers with the values of '
              'Header::get_rom_size_bytes / get_ram_size_bytes, unmodified', floor=2)
